@@ -270,7 +270,8 @@ def _judge(O, b, inst, cfg, res, flt, rec, what):
 def _interior(O, res, d, names, mnl, site):
     for nm in names:
         v = list(res[nm])
-        if R.cdim(d, mnl) and not -R.max_step(v, d, mnl) > 0.0:
+        # (an eigenvalue / margin is only computed to ~1e-16 |v|: converged iterates sit within that of the boundary)
+        if R.cdim(d, mnl) and not -R.max_step(v, d, mnl) > -1e-12 * max(1.0, R.snrm2(v, d, mnl)):
             O.bad('unknown:%s-not-interior:%s' % (nm, site), "status 'unknown' but %s is not strictly inside the cone" % nm)
 
 
@@ -280,7 +281,7 @@ def _interior_nl(O, res, pb, site):
     z = list(res['znl']) + list(res['zl'])
     mnl = len(res['snl'])
     for nm, v in (('s', s), ('z', z)):
-        if (mnl + R.cdim(d)) and not -R.max_step(v, d, mnl) > 0.0:
+        if (mnl + R.cdim(d)) and not -R.max_step(v, d, mnl) > -1e-12 * max(1.0, R.snrm2(v, d, mnl)):
             O.bad('unknown:%s-not-interior:%s' % (nm, site), "status 'unknown' but (%snl, %sl) is not strictly positive" % (nm, nm))
 
 
